@@ -77,7 +77,7 @@ def check_resample(name, spec, case, viol):
 
 def gen_case(rng):
     shape = S.random_shape(rng)
-    return {'shape': list(shape), 'bboxes': S.random_boxes(rng, shape), 'seed': rng.randint(0, 10 ** 6)}
+    return {'shape': list(shape), 'bboxes': S.random_boxes(rng, shape), 'seed': R.pick_seed(rng)}
 
 
 def check_rotation(case, viol):
